@@ -25,3 +25,6 @@ pub mod pause;
 pub use crate::tls::verif_hooks as tls;
 /// Default path selector (`BiasedRttPathSelector`) on synthetic path data.
 pub use crate::socket::biased_rtt_path_selector::verif_hooks as path_selector;
+
+/// The socket's typed mapped-address tables and `to_transport_addr` (C18).
+pub use crate::socket::remote_map::verif_hooks_addr as mapped_tables;
